@@ -25,10 +25,12 @@ import tempfile
 from decimal import Context, Decimal, ROUND_HALF_EVEN
 
 from harness import core
+from harness import lib_thermdat_cases as tc
 from harness.core import to_dec
 
 KEYWORDS = ('END', 'THERMO')
 FORMATS = ('list', 'tuple', 'dict')
+DEV = bool(os.environ.get('C05_DEV'))       # development on a shared machine: few TLC workers
 _CTX9 = Context(prec=9, rounding=ROUND_HALF_EVEN, Emin=-999999, Emax=999999)
 
 
@@ -71,13 +73,39 @@ def _dec_or_bad(x):
         return [-1, 0]
 
 
+def _inputs(sp):
+    """The values as the library receives them: every accepted Python / NumPy type
+    (sp['types']; defaults int counts, float temperatures, float64 arrays)."""
+    import numpy as np
+    ty = sp.get('types') or {}
+    ct = {'int': int, 'int64': np.int64, 'int32': np.int32, 'float': float,
+          'float64': np.float64}[ty.get('count', 'int')]
+    tt = {'float': float, 'int': int, 'float64': np.float64, 'int64': np.int64,
+          'float32': np.float32}[ty.get('T', 'float')]
+    cty = ty.get('coef', 'ndarray')
+
+    def coefs(v):
+        if cty == 'list':
+            return [float(x) for x in v]
+        if cty == 'tuple':
+            return tuple(float(x) for x in v)
+        if cty == 'float32':
+            return np.array(v, dtype=np.float32)
+        if cty == 'intlist':
+            return [int(x) for x in v]
+        return np.array(v, dtype=float)
+    return {'elements': {s: ct(n) for s, n in sp['elements']}, 'T': [tt(x) for x in sp['T']],
+            'a_high': coefs(sp['a_high']), 'a_low': coefs(sp['a_low'])}
+
+
 def proj_given(sp):
+    v = _inputs(sp)
     return {'name': codes(sp['name']),
-            'elems': [[codes(s), int(n)] for s, n in sp['elements']],
+            'elems': [[codes(s), int(n)] for s, n in v['elements'].items()],
             'phase': ord(sp['phase']),
-            'T': [to_dec(sp['T'][0]), to_dec(sp['T'][1]), to_dec(sp['T'][2])],
-            'ah': [to_coef(v) for v in sp['a_high']],
-            'al': [to_coef(v) for v in sp['a_low']]}
+            'T': [to_dec(float(x)) for x in v['T']],
+            'ah': [to_coef(float(x)) for x in v['a_high']],
+            'al': [to_coef(float(x)) for x in v['a_low']]}
 
 
 def proj_read(obj):
@@ -101,12 +129,51 @@ def proj_read(obj):
 # running one case through the real library
 # --------------------------------------------------------------------------
 def _mk_nasa(sp):
-    import numpy as np
     from pmutt.empirical.nasa import Nasa
-    return Nasa(name=sp['name'], T_low=sp['T'][0], T_high=sp['T'][1], T_mid=sp['T'][2],
-                a_low=np.array(sp['a_low'], dtype=float), a_high=np.array(sp['a_high'], dtype=float),
-                elements={s: n for s, n in sp['elements']}, phase=sp['phase'],
+    v = _inputs(sp)
+    return Nasa(name=sp['name'], T_low=v['T'][0], T_high=v['T'][1], T_mid=v['T'][2],
+                a_low=v['a_low'], a_high=v['a_high'], elements=v['elements'], phase=sp['phase'],
                 notes=sp.get('notes'))
+
+
+def _manual_entry(sp):
+    """One entry in the layout of the Chemkin manual, formatted WITHOUT the library: name in
+    columns 1-18, a six-character date in 19-24, temperatures right-justified with two
+    decimals (F10.2, F10.2, F8.2); composition, phase, coefficient fields and record numbers
+    as the property states them."""
+    v = _inputs(sp)
+    els = ''.join('%-2s%3d' % (s_, int(n)) for s_, n in v['elements'].items() if n > 0)
+    l1 = '%-18s%-6s%-20s%s%10.2f%10.2f%8.2f' % (sp['name'], '250101', els, sp['phase'],
+                                               float(v['T'][0]), float(v['T'][1]), float(v['T'][2]))
+    a = [float(x) for x in v['a_high']] + [float(x) for x in v['a_low']]
+    f = ['% .8E' % x for x in a]
+    return [l1.ljust(79) + '1', ''.join(f[0:5]) + '    2', ''.join(f[5:10]) + '    3',
+            ''.join(f[10:14]).ljust(79) + '4']
+
+
+def _supp_data(case, write_thermdat):
+    """supp_data in every shape a user can hand over: bare entries with or without a final
+    newline, a whole thermdat file (its own THERMO header and END line), entries separated
+    by blank and comment lines under a bare THERMO line, entries of another writer."""
+    supp = case['supp']
+    mode = case.get('supp_mode') or ('entries' if case.get('supp_nl', True) else 'entries_nonl')
+    if mode == 'manual':
+        return '\n'.join(ln for sp in supp for ln in _manual_entry(sp)) + '\n'
+    st = write_thermdat([_mk_nasa(sp) for sp in supp], write_date=bool(case.get('write_date')))
+    lines = st.split('\n')
+    body = lines[2:-1]
+    if mode == 'entries':
+        return '\n'.join(body) + '\n'
+    if mode == 'entries_nonl':
+        return '\n'.join(body)
+    if mode == 'whole':
+        return st
+    if mode == 'interleaved':
+        out = ['THERMO', '   300.000  1000.000  5000.000']
+        for k in range(0, len(body), 4):
+            out += body[k:k + 4] + ['', '! entry %d ends; THERMO data continue' % (k // 4), '']
+        return '\n'.join(out) + '\n'
+    raise core.MachineryError('unknown supp_mode %r' % (mode,))
 
 
 def _is_record(line):
@@ -124,7 +191,45 @@ def case_tags(case, text=None):
             if any(k in sp['name'] or k in note for k in KEYWORDS):
                 kw = True
     s2c3 = any(len(s) == 2 and n >= 100 for sp in sps for s, n in sp['elements'])
-    return {'kind': case['kind'], 'keyword_in_record': kw, 'sym2_count3': s2c3}
+    fl = any((sp.get('types') or {}).get('count') in ('float', 'float64') for sp in sps)
+    return {'kind': case['kind'], 'keyword_in_record': kw, 'sym2_count3': s2c3, 'float_count': fl}
+
+
+def _container(case, objs):
+    inp = case.get('input') or ('dict' if case.get('dict_input') else 'list')
+    if inp == 'list':
+        return objs
+    if inp == 'tuple':
+        return tuple(objs)
+    if inp == 'dict':
+        return {o.name: o for o in objs}
+    if inp == 'dict_key':                           # a dict keyed by something else than the name
+        return {'k%03d' % k: o for k, o in enumerate(objs)}
+    raise core.MachineryError('unknown input container %r' % (inp,))
+
+
+def _file_events(events, text):
+    for ln in text.split('\n'):
+        events.append({'ev': 'line', 'c': codes(ln)})
+    events.append({'ev': 'eof'})
+
+
+def _read_event(read_thermdat, path, fmt):
+    e = {'ev': 'read', 'fmt': fmt, 'kind': '', 'keys': [], 'sp': [], 'raised': ''}
+    objs = None
+    try:
+        res = read_thermdat(path, format=fmt)
+        e['kind'] = type(res).__name__
+        if isinstance(res, dict):
+            e['keys'] = [codes(str(k)) for k in res.keys()]
+            res = list(res.values())
+        objs = list(res)
+        e['sp'] = [proj_read(o) for o in objs]
+    except core.MachineryError:
+        raise
+    except Exception as ex:
+        e['raised'] = '%s: %s' % (type(ex).__name__, ex)
+    return e, objs
 
 
 def execute(case):
@@ -140,23 +245,26 @@ def execute(case):
         raised = ''
         try:
             objs = [_mk_nasa(sp) for sp in case['species']]
-            arg = {o.name: o for o in objs} if case.get('dict_input') else objs
+            arg = _container(case, objs)
             kw = {'write_date': bool(case.get('write_date'))}
             if case.get('supp'):
-                st = write_thermdat([_mk_nasa(sp) for sp in case['supp']], write_date=kw['write_date'])
-                lines = st.split('\n')
-                kw['supp_data'] = '\n'.join(lines[2:-1]) + ('\n' if case.get('supp_nl', True) else '')
+                kw['supp_data'] = _supp_data(case, write_thermdat)
             if case.get('supp_txt'):
                 kw['supp_txt'] = case['supp_txt']
+            fkw = dict(kw)
+            nl = case.get('newline')
+            if nl is not None:
+                fkw['newline'] = nl
             text = write_thermdat(arg, **kw)
-            write_thermdat(arg, filename=path, **kw)
+            write_thermdat(arg, filename=path, **fkw)
             with open(path, newline='') as f:
-                ftext = f.read()
-            if ftext != text and kw['write_date']:      # a date change between the two calls
+                raw = f.read()
+            if raw != text.replace('\n', nl or '\n') and kw['write_date']:   # a date change between the calls
                 text = write_thermdat(arg, **kw)
-            if ftext != text:
-                mism.append({'kind': 'FileEqualsString', 'string': text[:400], 'file': ftext[:400]})
-            text = ftext
+            if raw != text.replace('\n', nl or '\n'):
+                mism.append({'kind': 'FileEqualsString', 'string': text[:400], 'file': raw[:400], 'newline': nl})
+            with open(path) as f:                  # as a reader sees it (universal newlines)
+                text = f.read()
         except core.MachineryError:
             raise
         except Exception as ex:
@@ -165,26 +273,30 @@ def execute(case):
         if raised:
             return events, mism, info
         info['text'] = text
-        for ln in text.split('\n'):
-            events.append({'ev': 'line', 'c': codes(ln)})
-        events.append({'ev': 'eof'})
-        first = None
+        _file_events(events, text)
+        first = first_objs = None
         for fmt in case.get('formats') or FORMATS:
-            e = {'ev': 'read', 'fmt': fmt, 'kind': '', 'keys': [], 'sp': [], 'raised': ''}
+            e, robjs = _read_event(read_thermdat, path, fmt)
+            if first is None and robjs is not None:
+                first, first_objs = e['sp'], robjs
+            events.append(e)
+        # a second generation: what was read is written again and read again (same list expected)
+        if case.get('rewrite') and first_objs is not None:
+            path2 = os.path.join(d, 'thermdat2')
+            raised2 = ''
             try:
-                res = read_thermdat(path, format=fmt)
-                e['kind'] = type(res).__name__
-                if isinstance(res, dict):
-                    e['keys'] = [codes(str(k)) for k in res.keys()]
-                    res = list(res.values())
-                e['sp'] = [proj_read(o) for o in res]
-                if first is None:
-                    first = e['sp']
+                write_thermdat(first_objs, filename=path2, write_date=False)
+                with open(path2) as f:
+                    text2 = f.read()
             except core.MachineryError:
                 raise
             except Exception as ex:
-                e['raised'] = '%s: %s' % (type(ex).__name__, ex)
-            events.append(e)
+                raised2 = '%s: %s' % (type(ex).__name__, ex)
+            events.append({'ev': 'write', 'L': L, 'raised': raised2})
+            if not raised2:
+                _file_events(events, text2)
+                e, _ = _read_event(read_thermdat, path2, 'list')
+                events.append(e)
         # (S->C) equality with what TLC computed for this list
         if case.get('expect') is not None:
             info['identical_text'] = (text.split('\n') == case.get('spec_text'))
@@ -347,7 +459,7 @@ def _rand_coef(rnd):
 
 def _rand_species(rnd, used):
     n_el = rnd.choice([1, 1, 2, 2, 3, 3, 4, 4])
-    syms = rnd.sample(SYMBOLS, n_el + 2)
+    syms = rnd.sample(tc.PERIODIC, n_el + 2)
     els = [[s, _rand_count(rnd)] for s in syms[:n_el]]
     for s in syms[n_el:]:
         if rnd.random() < 0.25:                     # zero-count entries are omitted by the writer
@@ -369,7 +481,10 @@ def _rand_species(rnd, used):
     ph = rnd.choice('GGGSSSLB') if rnd.random() < 0.9 else rnd.choice(PRINTABLE)
     return {'name': _rand_name(rnd, used), 'notes': notes, 'elements': els, 'phase': ph,
             'T': [t_lo, t_hi, t_mid],
-            'a_high': [_rand_coef(rnd) for _ in range(7)], 'a_low': [_rand_coef(rnd) for _ in range(7)]}
+            'a_high': [_rand_coef(rnd) for _ in range(7)], 'a_low': [_rand_coef(rnd) for _ in range(7)],
+            'types': {'count': rnd.choice(['int', 'int', 'int64', 'int32']),
+                      'T': rnd.choice(['float', 'float', 'float64']),
+                      'coef': rnd.choice(['ndarray', 'ndarray', 'list', 'tuple'])}}
 
 
 def _rand_comment(rnd):
@@ -404,18 +519,24 @@ def _random_case(rnd, cid, nmax):
     if n >= 2 and rnd.random() < 0.08:              # a repeated name (list input, no dict output)
         species[-1]['name'] = species[0]['name']
         dup = True
+    if dup:
+        inp = rnd.choice(['list', 'tuple', 'dict_key'])
+    else:
+        inp = rnd.choice(['list', 'list', 'tuple', 'dict', 'dict', 'dict_key'])
     return {'cid': cid, 'kind': 'random', 'species': species, 'supp': supp,
-            'supp_nl': rnd.random() < 0.5,
+            'supp_mode': rnd.choice(['entries', 'entries', 'entries_nonl', 'whole', 'interleaved', 'manual']) if supp else None,
             'supp_txt': _rand_comment(rnd) if rnd.random() < 0.3 else None,
             'write_date': rnd.random() < 0.35,
-            'dict_input': (not dup) and rnd.random() < 0.35,
+            'input': inp, 'newline': '\r\n' if rnd.random() < 0.1 else None,
+            'rewrite': rnd.random() < 0.2,
             'formats': ['list', 'tuple'] if dup else list(FORMATS)}
 
 
 def _signature(case):
     return json.dumps([[sp['name'], sp['elements'], sp['phase']] for sp in
                        (case.get('supp') or []) + case['species']] +
-                      [case.get('write_date'), case.get('dict_input'), case.get('supp_txt')])
+                      [case.get('write_date'), case.get('input'), case.get('supp_mode'), case.get('supp_txt'),
+                       case.get('newline'), case.get('rewrite')])
 
 
 # --------------------------------------------------------------------------
@@ -432,10 +553,10 @@ MODELS = [  # cfg, expected to pass, invariants one of which must be the one vio
 
 def _design_and_cases(ctx, caseset):
     """Runs the design models and the sharded case generation concurrently."""
-    nshard = 6
+    nshard = 2 if DEV else 6
 
     def model(m):
-        return core.run_tlc('MC_Thermdat', m[0], workers=m[3], timeout=1500)
+        return core.run_tlc('MC_Thermdat', m[0], workers=min(m[3], 1) if DEV else m[3], timeout=1500)
 
     def gen(k):
         d, r = core.tlc_cases('MC_Thermdat_cases', 'MC_Thermdat_cases',
@@ -467,9 +588,13 @@ def _design_and_cases(ctx, caseset):
 # --------------------------------------------------------------------------
 def run(ctx):
     ctx.coverage['rule'] = (
-        'a case is one species collection (with its options: list/dict input, date or notes, '
-        'supplementary entries, comment block) written by the real write_thermdat (string and file) and '
-        'read back by the real read_thermdat in every output format; tlc cases are the complete case set '
+        'a case is one species collection (with its options: list/tuple/dict input, date or notes, '
+        'supplementary entries in five shapes, comment block, newline convention) written by the real '
+        'write_thermdat (string and file) and read back by the real read_thermdat in every output format, '
+        'for some cases written and read a second time; grid cases enumerate the quantifier (full product of '
+        'the options, name classes, composition grid, boundary counts/temperatures/coefficients, every '
+        'phase character, every accepted argument type, list sizes 1/2/199/200; counted in '
+        'coverage.input_classes, a zero is a machinery error); tlc cases are the complete case set '
         'of Thermdat.tla (adversarial names/compositions/notes/coefficients, lists of 1-3) with equality '
         'against the result TLC computed, random cases are drawn from the whole quantifier (1-200 species, '
         'names of 1-15 printable non-blank characters not starting with "!", 1-4 elements with counts '
@@ -484,10 +609,19 @@ def run(ctx):
         tlc.sort(key=lambda c: json.dumps(c['src'], sort_keys=True))
         cases = [_tlc_case(c, 't%d' % k) for k, c in enumerate(tlc)]
         rnd = random.Random(ctx.seed * 7919 + 5)
-        nrand = ctx.pick(400, 4000)
+        grid = tc.grid_cases(random.Random(ctx.seed * 104729 + 11))
+        ctx.coverage['grid_cases'] = len(grid)
+        cases += grid
+        nrand = ctx.pick(300, 4000)
         for k in range(nrand):
             big = (not ctx.quick) and k % 60 == 0
             cases.append(_random_case(rnd, 'r%d' % k, 200 if big else (40 if k % 25 == 0 else 12)))
+    classes = tc.classify(cases)
+    ctx.coverage['input_classes'] = classes
+    if ctx.replay_case is None:
+        missing = [k for k in tc.REQUIRED if not classes.get(k)]
+        if missing:
+            raise core.MachineryError('vacuous run: input classes of the quantifier never generated: %s' % missing)
     results = core.pmap(_safe_execute, cases)
     traces = []
     evals = {}
@@ -515,9 +649,9 @@ def run(ctx):
         if tid % 353 == 0:
             ctx.sample({'kind': case['kind'], 'names': [s['name'] for s in case['species']][:6],
                         'elements': [s['elements'] for s in case['species']][:3],
-                        'options': {k: case.get(k) for k in ('write_date', 'dict_input', 'supp_txt')},
+                        'options': {k: case.get(k) for k in ('write_date', 'input', 'supp_mode', 'supp_txt', 'newline', 'rewrite')},
                         'n_supp': len(case.get('supp') or [])})
-    fails, stats = core.validate_traces('Trace_Thermdat', 'Trace', traces)
+    fails, stats = core.validate_traces('Trace_Thermdat', 'Trace', traces, shards=4 if DEV else None)
     ctx.count('traces_validated_against_impl', len(traces))
     ctx.coverage['trace_lines'] = stats['lines']
     ctx.coverage['clause_evaluations'] = dict(sorted(evals.items()))
